@@ -202,7 +202,10 @@ func TableFor(sql string) (string, error) {
 	if err != nil {
 		return "", err
 	}
-	stmt := parsed.(*sqlparser.Select)
+	stmt, ok := parsed.(*sqlparser.Select)
+	if !ok {
+		return "", fmt.Errorf("Only SELECT statements are supported, not %v", reflect.TypeOf(parsed))
+	}
 	return strings.ToLower(nodeToString(stmt.From[0])), nil
 }
 
@@ -212,7 +215,11 @@ func Parse(sql string) (*Query, error) {
 	if err != nil {
 		return nil, fmt.Errorf("Error parsing %v: %v", sql, err)
 	}
-	return parse(parsed.(*sqlparser.Select))
+	stmt, ok := parsed.(*sqlparser.Select)
+	if !ok {
+		return nil, fmt.Errorf("Error parsing %v: only SELECT statements are supported, not %v", sql, reflect.TypeOf(parsed))
+	}
+	return parse(stmt)
 }
 
 func parse(stmt *sqlparser.Select) (*Query, error) {
